@@ -1622,7 +1622,7 @@ def gen_tsig(rng, idv):
 
 def gen_now(rng):
     if rng.chance(1, 12):
-        return 2 ** 48 - 1 - 70000 - rng.choice([0, 1, 65535, 70000])   # signing time at / just below the 48-bit limit
+        return 2 ** 48 - 1 - 70000 - rng.choice([67100, 70000, 140000])   # signing time just below the 48-bit limit (room for the offsets the cases add)
     return rng.choice([1700000000, 0x7FFFFFFF, 0x80000000, 0xFFFFFFFF, 0x100000000, 0x1234567890, 70000, 2 ** 47 + 12345, rng.below(2 ** 33)])
 
 
